@@ -22,7 +22,7 @@ LEVEL = "exploration"
 COMPUTERS = ("superadditive", "superadditive_cached", "sam_apx_1", "sam_apx_10", "sam_apx_100")
 RULE = ("Hypothesis RuleBasedStateMachine A: values of ANY class (arbitrary / superadditive / SAM; int, dyadic, float), n=3..6, "
         "one long-lived object per registered computer (superadditive, superadditive_cached, sam_apx_1/10/100, sam_apx_1000 "
-        "for n<=4 in thorough); rules reveal, unreveal, set, unset, reset-to-K', compute, compute-twice, poison (seeded "
+        "for n<=4 in thorough); rules reveal, unreveal, set, unset, overwrite (new value for a known coalition), reset-to-K', compute, compute-twice, poison (seeded "
         "arbitrary bounds on all unknown rows via set_lower_bounds/set_upper_bounds), probe-undo (reveal+compute, "
         "unreveal+compute == snapshot). Oracle: table bit-identical to a fresh object with the same knowledge computed once. "
         "Machine B: ICG_Gym over a fixed hidden game: step(a); unstep(a) restores state/reward/done/steps/mask/table exactly; "
@@ -60,7 +60,7 @@ class Sim:
     def __init__(self, game: dict, k0, computers):
         from .. import repo
         self.repo = repo
-        self.n, self.v, self.cls = game["n"], game["v"], game["cls"]
+        self.n, self.v, self.cls = game["n"], list(game["v"]), game["cls"]
         self.K = set(k0)
         self.min = minimal_masks(self.n)
         self.computers = list(computers)
@@ -105,6 +105,8 @@ class Sim:
                 g.reveal_value(self.v[op[1]], repo.coal(op[1]))
             elif kind == "set":
                 g.set_value(self.v[op[1]], repo.coal(op[1]))
+            elif kind == "overwrite":
+                g.set_value(op[2], repo.coal(op[1]))       # a different value for an already known coalition
             elif kind == "unreveal":
                 g.unreveal_value(repo.coal(op[1]))
             elif kind == "unset":
@@ -117,6 +119,9 @@ class Sim:
                 g.set_upper_bounds(np.array(up))
             else:
                 raise ValueError(op)
+        if kind == "overwrite":
+            self.v[op[1]] = float(op[2])
+            self.stale_before = True
         if kind in ("reveal", "set"):
             self.K.add(op[1])
         elif kind in ("unreveal", "unset"):
@@ -294,6 +299,13 @@ def make_machine(max_n: int, with_1000: bool):
         @rule(data=st.data())
         def reset(self, data):
             self._do(["reset", data.draw(knowledge_sets(self.sim.n))])
+
+        @precondition(lambda self: self.sim is not None)
+        @rule(i=st.integers(0, 2**20), delta=st.sampled_from([-7.0, -1.0, -0.5, 0.25, 1.0, 3.0, 16.0]))
+        def overwrite(self, i, delta):
+            k = sorted(self.sim.K - {0})
+            m = k[i % len(k)]
+            self._do(["overwrite", m, self.sim.v[m] + delta])
 
         @precondition(lambda self: self.sim is not None)
         @rule(seed=st.integers(0, 2**31))
